@@ -20,6 +20,7 @@ CANDS = {
     "os_name": ["a", "b", "ab", "c"],
     "sys_platform": ["a", "b", "ab"],
     "extra": [frozenset(), frozenset({"e1"}), frozenset({"e2"}), frozenset({"e1", "e2"})],
+    "platform_release": ["5.4", "5.10.0", "6.1"],
     "python_full_version": ["3.0.4", "3.6.5", "3.7.0", "3.7.2", "3.7.5", "3.8.0", "3.8.1", "3.9.0", "3.10.1"],
 }
 
@@ -54,6 +55,10 @@ def atom_specs(tier):
             ("python_full_version", "!=", "3.7.*", False), ("python_full_version", ">", "3.7.2", True),
             ("python_full_version", "<", "4.0", False),
             ("python_full_version", "<", "3.7.2", True), ("python_full_version", ">=", "3.8.0", True), ("python_full_version", "<=", "3.7.2", True)]
+    # platform_release: version-like variable whose atoms never merge with the python ones
+    for op in ("<", ">=", "==", "!="):
+        out.append(("platform_release", op, "5.10", False))
+    out += [("platform_release", ">", "5.4", False), ("platform_release", "<=", "6.1", True)]
     if tier == "thorough":
         for op in ("==", "!=", "in", "not in"):
             out.append(("os_name", op, "ba", False))
